@@ -75,7 +75,12 @@ class Built:
             if how == 1 and len(mat) == 1 and all(v == 1 for v in mat[0]):
                 return af.sum().reshape(1)                                  # ones row = sum
             if how >= 1 and all(sorted(r) == [0] * (n - 1) + [1] for r in mat):
-                idx = torch.tensor([r.index(1) for r in mat])
+                sel = [r.index(1) for r in mat]
+                if how == 2 and len(sel) == 1:
+                    return af.unbind(0)[sel[0]].reshape(1)                  # one output of a multi-output op
+                if how == 2 and sel == list(range(sel[0], sel[0] + len(sel))) and n % len(sel) == 0 and sel[0] % len(sel) == 0:
+                    return torch.split(af, len(sel))[sel[0] // len(sel)]    # one chunk of torch.split
+                idx = torch.tensor(sel)
                 return af[idx] if how == 1 else torch.index_select(af, 0, idx)   # selection / permutation
             M = torch.tensor(mat, dtype=self.dtype)
             return M @ af if how != 2 else torch.mv(M, af)
